@@ -29,7 +29,11 @@ out.append("changes that compile, pass the library's 56 tests, break the propert
 out.append("Wave 1 asked for two per property, wave 2 (`-w2-`) for three more that differ in kind from wave 1, wave 3 (`-w3-`) for the three hardest-to-notice")
 out.append("realistic defects, wave 4 (`-w4-`) for two with new angles (shared code hurting one variant, extreme parameters, input normalisation")
 out.append("features, corner rules of the standards), wave 5 (`-w5-`) for two that random testing is unlikely to hit (a conjunction of")
-out.append("conditions, one table row, a particular history, one boundary value, a fast path for one input shape). I re-confirmed every one")
+out.append("conditions, one table row, a particular history, one boundary value, a fast path for one input shape), wave 6 (`-w6-`) for two that")
+out.append("imitate maintenance work (standard-library modernisation, a feature addition that leaks into the old entry points, a performance")
+out.append("refactoring, an over-correcting bug fix), wave 7 (`-w7-`) was clause-targeted and adversarial: the sub-agent was told what kind of")
+out.append("harness is being evaluated (reference readers, structural checks, boundary sweeps, models, fresh-process comparison, race workloads) and")
+out.append("asked to split the property into clauses and break the two clauses such a harness is least likely to verify. I re-confirmed every one")
 out.append("(build, library suite green, demonstration fails with / passes without the patch — column *ok*) and ran the quick tier of the")
 out.append("targeted property against the patched copy (`tools/seeded.py`, recorded in each `meta.json`). † = the check missed it at first and")
 out.append("was strengthened (what changed is in `meta.json` → `strengthening_needed` and summarised in 12.3).\n")
